@@ -27,20 +27,22 @@ def sig_for(v, src, out):
 
 def _mk(item):
     name, src, scopes, cfg, focus, kdir, idx = item
-    keep = ()
+    raw = b''
     kf = None
     if cfg == 'keepfile':
         names = minify.names_in(src)
-        keep = tuple(names[::2]) + (b'a', b'b')
+        rnd = random.Random(idx)
+        keep = tuple(names[idx % 2::2]) + ((b'a', b'b') if idx % 3 else ())
+        raw = minify.keep_file_bytes(keep, rnd, style=(0 if idx % 4 == 0 else None))
         kf = os.path.join(kdir, 'k%d.txt' % idx)
         with open(kf, 'wb') as f:
-            f.write(b'# kept\n' + b'\n'.join(keep) + b'\n')
+            f.write(raw)
     out, err = minify.run_minifier(src, keep_all=(cfg == 'keepall'), keep_file=kf)
     if kf:
         os.unlink(kf)
     if out is None:
         return ('load' if err.startswith('load:') else 'raises', err, None)
-    return ('ok', minify.make_trace(src, out, focus, scopes, keep_all=(cfg == 'keepall'), keep=keep), out)
+    return ('ok', minify.make_trace(src, out, focus, scopes, keep_all=(cfg == 'keepall'), keep_file=raw), out)
 
 
 def judge(ctx, cases, cfgs, keepfiles, focus=FOCUS, label=''):
@@ -117,6 +119,7 @@ def gen_sets(ctx):
                 ('skeleton<=8', progs.generate(ctx, 'skeleton', 8)),
                 ('shortif<=15', progs.generate(ctx, 'shortif', 15)),
                 ('sim<=60', progs.generate(ctx, 'all', 60, max_depth=5, simulate=3000))]
+    sets.append(progs.wide_set(ctx, 60 if ctx.quick else 600))
     return sets
 
 
